@@ -240,13 +240,25 @@ def store_case(rep, drv, rng, tmpdir):
 					warnings.simplefilter('ignore')
 					d = load_instance(name, filepath=path)
 				tok = d['token'] if isinstance(d, dict) else int(d.nodes[0].local_holding_cost)
-			except (KeyError, FileNotFoundError):
+			except (KeyError, FileNotFoundError, IndexError, AttributeError, TypeError):
 				tok = None
 			ops.append({'op': 'load', 'name': name}); py_res.append(tok)
 	if os.path.exists(path):
-		file_names = [[r['name'], (r['data']['token'] if r['type'] == 'dict' else int(r['data']['_nodes'][0]['local_holding_cost']))]
-					  for r in json.load(open(path))['instances']]
+		file_names = []; tag_bad = []
+		for r in json.load(open(path))['instances']:
+			data = r.get('data')
+			is_plain = isinstance(data, dict) and 'token' in data
+			try:
+				tokv = data['token'] if is_plain else int(data['_nodes'][0]['local_holding_cost'])
+			except Exception:
+				tokv = None
+			file_names.append([r['name'], tokv])
+			if r.get('type') != ('dict' if is_plain else 'network'):
+				tag_bad.append('instance %r holds a %s but is tagged %r' % (r['name'], 'plain dict' if is_plain else 'network', r.get('type')))
 		os.remove(path)
+		if tag_bad:
+			rep.diff('store', 'instance file entries carry the wrong type tag (load_instance decides by it whether to rebuild a network): ' + '; '.join(tag_bad[:3]),
+					 ops, py=tag_bad[:5], oracle=True, theorem=THEOREM)
 	else:
 		file_names = []
 	mo = drv.call('store', ops=ops)
